@@ -81,7 +81,12 @@ class Engine(ExprMixin, CallMixin):
         if not hints:
             return st
         c = Ctx(self, st, getattr(self, 'entry_state', st), getattr(self, 'entry_args', {}))
-        for name, f in hints(c, event, data) or []:
+        for item in hints(c, event, data) or []:
+            if item[0] == 'ghost':          # ghost assignment
+                st = st.copy()
+                st.ghost[item[1]] = item[2]
+                continue
+            name, f = item
             self.pending.append(PendingObl('lemma', 'lemma %s' % name, (), f, ()))
             st = st.assume(f)
         return st
@@ -678,6 +683,7 @@ class Engine(ExprMixin, CallMixin):
                 continue
             s = s.copy()
             comps = v.items if isinstance(v, STuple) else [v]
+            s = self.apply_hints(s, 'yield', [getattr(x, 't', None) for x in comps]).copy()
             n = s.ghost.get('out_n')
             if n is None:
                 raise Unsupported('yield in a function without generator contract')
